@@ -40,6 +40,7 @@ ORACLE_GROUPS = {
     'C12': [('src/algorithms/community/partitions.rs', 'partition_oracle')],
     'C04': [('src/algorithms/shortest_path/', 'sp_oracle')],
     'C08': [('src/algorithms/shortest_path/', 'sp_oracle')],
+    'C05': [('src/algorithms/centrality/betweenness.rs', 'betweenness_oracle')],
     'C06': [('src/algorithms/centrality/closeness.rs', 'closeness_oracle')],
     'C15': [('src/graph/convert.rs', 'derived_oracle'), ('src/graph/subgraph.rs', 'derived_oracle')],
 }
